@@ -1,9 +1,22 @@
 /-
   C09 — Pending transactions are tracked exactly.   PROPERTY THEOREMS (pending part of MW.Model.Ledger).
+
+  The model functions are the ones the driver executes against the implementation (tie A): addRelevantUnmined
+  (insertMemPoolTx + AddCredits), insertMinedTx (its pending part `confirmPending` = unpendMined ;
+  removeDoubleSpends), removeConflict, purgeSpenders, rollbackTx.  Helper lemmas: MW/Lemmas/LedgerPending*.lean.
+
+  `PendWF rank s` is the well-formedness of the three pending stores: the pending set `m` and the spender
+  index `mi` describe each other (keys are ids; every listed spender is a pending transaction that spends the
+  outpoint; every input of every pending transaction is listed; no empty list), and inputs refer to
+  transactions of lower `rank` (transaction ids are hashes of the content including the input ids: a
+  transaction is created after the ones it spends — e.g. rank = order of definition).  It holds for the empty
+  store and is preserved by receive, confirm, conflict purge and the coinbase purge (`pendwf_*`).
 -/
 import MW.Model.Ledger
+import MW.Lemmas.LedgerPendingOnly
+import MW.Lemmas.LedgerPendingRollback
 namespace MW.Props.C09
-open MW MW.Model.Ledger
+open MW MW.Model.Ledger MW.Lemmas.LedgerPending
 
 /-- a coin is flagged spent-by-unconfirmed exactly when the unmined-inputs bucket has its outpoint -/
 theorem sbu_iff (s : Store) (tx : TxId) (i : Nat) :
@@ -16,5 +29,228 @@ theorem putPendIn_flags (m : AMap.T (TxId × Nat) (List TxId)) (k k' : TxId × N
   unfold putPendIn
   rw [AMap.get_put]
   by_cases h : k = k' <;> simp [h]
+
+-- ------------------------------------------------------------------ (1) conflict_purges
+
+/-- CONFLICT PURGES, with TERMINATION.  From a well-formed store, `removeConflict` on a pending transaction
+    with the fuel the model passes (`pending.length + 1`) or ANY larger fuel
+    (a) computes the same store — the fuel is never the reason the recursion stops;
+    (b) removes the transaction and every pending transaction reachable from it through the spender index
+        (`Desc`), together with their pending credits and their memberships in the spender index;
+    (c) removes nothing else: a pending transaction that disappeared is such a descendant;
+    (d) never adds anything and leaves every mined bucket untouched (`Sub`);
+    (e) frees the coins: afterwards a coin is flagged spent-by-unconfirmed only if a transaction that is
+        still pending spends it;
+    (f) ends in a well-formed store. -/
+theorem conflict_purges (rank : TxId → Nat) (own : Own) (s : Store) (tx : Tx) (hw : PendWF rank s)
+    (hroot : AMap.get s.pending tx.id = some tx) (fuel : Nat) (hf : s.pending.length + 1 ≤ fuel) :
+    removeConflict own fuel s tx = removeConflict own (s.pending.length + 1) s tx ∧
+    (∀ d, Desc s tx d → AMap.get (removeConflict own fuel s tx).pending d.id = none ∧
+        (∀ j, j < d.outs.length → AMap.get (removeConflict own fuel s tx).pendCred (d.id, j) = none) ∧
+        (∀ op, Spends d op → ¬ Listed (removeConflict own fuel s tx) op d.id)) ∧
+    (∀ t, AMap.get s.pending t.id = some t → AMap.get (removeConflict own fuel s tx).pending t.id = none → Desc s tx t) ∧
+    Sub (removeConflict own fuel s tx) s ∧
+    (∀ c i, spentByUnmined (removeConflict own fuel s tx) c i = true →
+        ∃ id t, AMap.get (removeConflict own fuel s tx).pending id = some t ∧ Spends t (c, i)) ∧
+    PendWF rank (removeConflict own fuel s tx) := by
+  obtain ⟨h1, h2, h3⟩ := removeConflict_wf rank own s tx hw hroot fuel hf
+  refine ⟨h1, fun d hd => ?_, removeConflict_only own fuel s tx hw.key_id hroot, h2.step.sub,
+    fun c i h => spender_of_flag h3 c i h, h3⟩
+  obtain ⟨g1, g2⟩ := desc_gone hroot h2.step h2.gone hd
+  exact ⟨g1, g2.1, g2.2⟩
+
+/-- the descendant relation is not vacuous and the hypotheses are satisfiable: a chain P ← Q ← R of pending
+    transactions (R spends Q spends P) built by three receives from the empty store -/
+def exP : Tx := ⟨"P", false, [⟨"C", 0, 0⟩], [⟨"A1", 5, .std⟩]⟩
+def exQ : Tx := ⟨"Q", false, [⟨"P", 0, 0⟩], [⟨"A1", 4, .std⟩]⟩
+def exR : Tx := ⟨"R", false, [⟨"Q", 0, 0⟩, ⟨"C", 1, 0⟩], [⟨"X", 3, .std⟩]⟩
+def exRank : TxId → Nat | "P" => 1 | "Q" => 2 | "R" => 3 | _ => 0
+def exRel (i : Nat) (o : Out) : Rel := ⟨i, o, "W", false⟩
+def exS1 : Store := match addRelevantUnmined {} { tx := exP, relOut := [exRel 0 ⟨"A1", 5, .std⟩] } with | .ok s => s | .error _ => {}
+def exS2 : Store := match addRelevantUnmined exS1 { tx := exQ, relOut := [exRel 0 ⟨"A1", 4, .std⟩] } with | .ok s => s | .error _ => {}
+def exS3 : Store := match addRelevantUnmined exS2 { tx := exR } with | .ok s => s | .error _ => {}
+
+theorem pendwf_empty (rank : TxId → Nat) : PendWF rank ({} : Store) := by
+  refine ⟨fun _ _ h => ?_, fun _ _ h => ?_, fun _ _ h => ?_, fun _ h => ?_, fun _ _ h => ?_⟩
+  · cases h
+  · obtain ⟨_, h, _⟩ := h; cases h
+  · cases h
+  · cases h
+  · cases h
+
+/-- TEST (evaluation of one instance, not a theorem about all inputs): purging P from the chain store removes
+    P, Q and R, every pending credit and every spender entry — including R's entry for the foreign coin C:1 -/
+example : (removeConflict [] (exS3.pending.length + 1) exS3 exP).pending = [] ∧
+    (removeConflict [] (exS3.pending.length + 1) exS3 exP).pendIns = [] ∧
+    (removeConflict [] (exS3.pending.length + 1) exS3 exP).pendCred = [] ∧
+    exS3.pending.length = 3 := by decide
+
+example : ∃ s : Store, PendWF exRank s ∧ AMap.get s.pending exP.id = some exP ∧ Desc s exP exR := by
+  have h1 : addRelevantUnmined {} { tx := exP, relOut := [exRel 0 ⟨"A1", 5, .std⟩] } = .ok exS1 := by rfl
+  have h2 : addRelevantUnmined exS1 { tx := exQ, relOut := [exRel 0 ⟨"A1", 4, .std⟩] } = .ok exS2 := by rfl
+  have h3 : addRelevantUnmined exS2 { tx := exR } = .ok exS3 := by rfl
+  have w1 := addRelevantUnmined_wf exRank _ _ _ (pendwf_empty exRank) h1 (by decide) (by decide)
+  have w2 := addRelevantUnmined_wf exRank _ _ _ w1 h2 (by decide) (by decide)
+  have w3 := addRelevantUnmined_wf exRank _ _ _ w2 h3 (by decide) (by decide)
+  refine ⟨exS3, w3, by decide, ?_⟩
+  have eQ : Edge exS3 exP exQ := ⟨0, by decide, ⟨["Q"], by decide, by decide⟩, by decide⟩
+  have eR : Edge exS3 exQ exR := ⟨0, by decide, ⟨["R"], by decide, by decide⟩, by decide⟩
+  exact Desc.step (Desc.step Desc.root eQ) eR
+
+/-- CONFLICT PURGES, as the block handler runs it (removeDoubleSpends on a confirmed transaction `tr`, relevant
+    or not): every pending transaction `d` that spends an input of `tr` — any input — is gone with all its
+    descendants and their pending credits; the inputs of `tr` have no spender entry left. -/
+theorem conflict_purges_on_confirm (rank : TxId → Nat) (own : Own) (s : Store) (tr : TxRec) (hw : PendWF rank s) :
+    Sub (removeDoubleSpends own s tr) s ∧
+    (∀ i ∈ tr.tx.ins, spentByUnmined (removeDoubleSpends own s tr) i.tx i.idx = false) ∧
+    (∀ i ∈ tr.tx.ins, ∀ d, Listed s (i.tx, i.idx) d.id → AMap.get s.pending d.id = some d →
+      ∀ e, Desc s d e → AMap.get (removeDoubleSpends own s tr).pending e.id = none ∧
+        (∀ j, j < e.outs.length → AMap.get (removeDoubleSpends own s tr).pendCred (e.id, j) = none)) := by
+  obtain ⟨h1, h2, h3⟩ := removeDoubleSpends_spec rank own s tr hw.weak hw.noEmpty
+  refine ⟨h1, fun i hi => ?_, h3⟩
+  unfold spentByUnmined; rw [h2 i hi]; rfl
+
+-- ------------------------------------------------------------------ (2) pending_flagged
+
+/-- PENDING FLAGGED.  Receiving a transaction that was not pending (addRelevantUnmined succeeds) makes it
+    pending, flags EVERY coin it spends as spent-by-unconfirmed, and records each relevant output as a pending
+    credit only: it is not in the unspent index (hence in no balance and in no coin listing). -/
+theorem pending_flagged (s s' : Store) (tr : TxRec) (h : addRelevantUnmined s tr = .ok s')
+    (hnew : AMap.get s.pending tr.tx.id = none) :
+    AMap.get s'.pending tr.tx.id = some tr.tx ∧
+    (∀ i ∈ tr.tx.ins, spentByUnmined s' i.tx i.idx = true) ∧
+    (∀ rel ∈ tr.relOut, (AMap.get s'.pendCred (tr.tx.id, rel.index)).isSome = true ∧
+      AMap.get s'.unspent (rel.wallet, tr.tx.id, rel.index) = none) ∧
+    minedOf s' = minedOf s := by
+  obtain ⟨h1, _, h3, _, h5⟩ := addRelevantUnmined_new s s' tr h hnew
+  refine ⟨by rw [h1, AMap.get_put]; simp, fun i hi => (addRelevantUnmined_flags s s' tr h hnew i hi).2, h5, h3⟩
+
+/-- … and the flag stays as long as the transaction is pending: in every well-formed store each input of each
+    pending transaction is flagged, and a flagged coin has a pending spender (`pendwf_*` below: every pending-side
+    operation keeps the store well-formed). -/
+theorem flagged_while_pending (rank : TxId → Nat) (s : Store) (hw : PendWF rank s) :
+    (∀ id t, AMap.get s.pending id = some t → ∀ i ∈ t.ins, spentByUnmined s i.tx i.idx = true) ∧
+    (∀ c i, spentByUnmined s c i = true → ∃ id t, AMap.get s.pending id = some t ∧ Spends t (c, i)) :=
+  ⟨fun id t hp i hi => flagged_of_wf hw id t hp i hi, fun c i h => spender_of_flag hw c i h⟩
+
+example : addRelevantUnmined {} { tx := exP, relOut := [exRel 0 ⟨"A1", 5, .std⟩] } = .ok exS1 ∧
+    AMap.get ({} : Store).pending exP.id = none := ⟨by rfl, by decide⟩
+
+theorem pendwf_receive (rank : TxId → Nat) (s s' : Store) (tr : TxRec) (hw : PendWF rank s)
+    (h : addRelevantUnmined s tr = .ok s') (hnew : AMap.get s.pending tr.tx.id = none)
+    (hrank : ∀ i ∈ tr.tx.ins, rank i.tx < rank tr.tx.id) : PendWF rank s' :=
+  addRelevantUnmined_wf rank s s' tr hw h hnew hrank
+
+theorem pendwf_confirm (rank : TxId → Nat) (own : Own) (s : Store) (tr : TxRec) (hw : PendWF rank s)
+    (hsame : ∀ t, AMap.get s.pending tr.tx.id = some t → t = tr.tx) : PendWF rank (confirmPending own s tr) :=
+  confirmPending_wf rank own s tr hw hsame
+
+theorem pendwf_coinbase_purge (rank : TxId → Nat) (own : Own) (s : Store) (op : TxId × Nat) (hw : PendWF rank s) :
+    PendWF rank (purgeSpenders own s op) := purgeSpenders_wf rank own s op hw
+
+example : ∀ t, AMap.get exS3.pending exQ.id = some t → t = exQ := by decide
+
+-- ------------------------------------------------------------------ (3) confirm_once
+
+/-- CONFIRM ONCE.  insertMinedTx of a transaction without a record in that block runs the mined bookkeeping,
+    which leaves the pending stores alone, and then `confirmPending`; afterwards, exactly:
+    the transaction is not pending; if it was pending, none of its outputs has a pending credit; none of its
+    inputs has a spender entry (so none is flagged); nothing was added to the pending stores. -/
+theorem confirm_once (rank : TxId → Nat) (own : Own) (s s' : Store) (bals bals' : Bals) (tr : TxRec) (blk : BlockMeta)
+    (hw : PendWF rank s) (h : insertMinedTx own s bals tr blk = .ok (s', bals', false)) :
+    AMap.get s'.pending tr.tx.id = none ∧
+    ((AMap.get s.pending tr.tx.id).isSome = true → ∀ j, j < tr.tx.outs.length → AMap.get s'.pendCred (tr.tx.id, j) = none) ∧
+    (∀ i ∈ tr.tx.ins, AMap.get s'.pendIns (i.tx, i.idx) = none ∧ spentByUnmined s' i.tx i.idx = false) ∧
+    (∀ id t, AMap.get s'.pending id = some t → AMap.get s.pending id = some t) ∧
+    (∀ k, AMap.get s.pendCred k = none → AMap.get s'.pendCred k = none) ∧
+    (∀ op id, Listed s' op id → Listed s op id) := by
+  obtain ⟨s1, hside, rfl⟩ := insertMinedTx_pending own s bals tr blk s' bals' h
+  simp only [pendSide, Prod.mk.injEq] at hside
+  obtain ⟨e1, e2, e3, _⟩ := hside
+  have hw1 : WFw rank s1 := by
+    obtain ⟨a, b, c⟩ := hw.weak
+    exact ⟨fun id t hg => a id t (by rw [← e1]; exact hg),
+      fun op id t hl hg => b op id t (by unfold Listed at *; rw [← e2]; exact hl) (by rw [← e1]; exact hg),
+      fun id t hg => c id t (by rw [← e1]; exact hg)⟩
+  have hne1 : NoEmpty s1 := fun op => by rw [e2]; exact hw.noEmpty op
+  obtain ⟨c1, c2, c3, c4, _⟩ := confirmPending_spec rank own s1 tr hw1 hne1
+  refine ⟨c2, fun hp j hj => c3 (by rw [e1]; exact hp) j hj, fun i hi => ⟨c4 i hi, ?_⟩,
+    fun id t hg => by rw [← e1]; exact c1.pending_some hg, fun k hk => c1.cred k (by rw [e3]; exact hk),
+    fun op id hl => by have := c1.ins op id hl; unfold Listed at *; rw [← e2]; exact this⟩
+  unfold spentByUnmined; rw [c4 i hi]; rfl
+
+/-- TEST: Q of the chain store confirms (no mined credit involved): Q leaves the pending set, its pending credit
+    and its spender entry go; R — which spends Q's output, a descendant, not a conflict — stays pending. -/
+example : (match insertMinedTx [] exS3 [] { tx := exQ } ⟨7, "B7"⟩ with
+    | .ok (s', _, false) => (s'.pending.map (·.1), s'.pendCred.map (·.1), s'.pendIns.map (·.1))
+    | _ => ([], [], [])) = (["R", "P"], [("P", 0)], [("C", 1), ("Q", 0), ("C", 0)]) := by decide
+
+-- ------------------------------------------------------------------ (4) unconfirm_readable
+
+/-- UNCONFIRM READABLE.  Rolling back a non-coinbase transaction record puts `pending[id] = tx` — the very
+    transaction the node returned for the stored file location, so the pending record reads back to it —,
+    one spender entry per input (every input flagged), and for every output index: the mined credit is gone and,
+    where the credit table (after the input loop, which only un-spends credits of OTHER transactions unless the
+    transaction spent its own output) held one, the pending credit is that credit with the spender link cleared.
+    The byte-level encode/decode round trip of the pending value is tied by the `pend` observation (`T:r`). -/
+theorem unconfirm_readable (c : Ctx) (s s' : Store) (bals bals' : Bals) (blk : BlockMeta) (id : TxId)
+    (rem : List (TxId × Nat)) (loc : BlkId × Nat) (tx : Tx)
+    (h : rollbackTx c s bals blk id = .ok (s', bals', rem))
+    (hloc : AMap.get s.txrecs (id, blk) = some loc) (htx : c.node.txByFileLoc loc = some tx) (hcb : tx.cb = false) :
+    AMap.get s'.pending id = some tx ∧
+    (∀ i ∈ tx.ins, Listed s' (i.tx, i.idx) id ∧ spentByUnmined s' i.tx i.idx = true) ∧
+    (∀ op x, Listed s op x → Listed s' op x) ∧
+    rem = [] ∧
+    ∃ sb1, foldIdxM (rollbackIn c id blk) tx.ins 0
+        ({ s with txrecs := AMap.erase s.txrecs (id, blk), pending := AMap.put s.pending id tx }, bals) = .ok sb1 ∧
+      sb1.1.pendCred = s.pendCred ∧
+      ∀ j, j < tx.outs.length →
+        AMap.get s'.credits ⟨id, blk, j⟩ = none ∧
+        AMap.get s'.pendCred (id, j) = (match AMap.get sb1.1.credits ⟨id, blk, j⟩ with
+          | some cr => some (unminedOfMined cr)
+          | none => AMap.get s.pendCred (id, j)) :=
+  rollbackTx_unconfirm c s s' bals bals' blk id rem loc tx h hloc htx hcb
+
+/-- UNCONFIRM keeps the store well-formed: the rolled-back transaction is stored under its own id, was not pending
+    (a transaction is pending or mined, not both) and respects the rank -/
+theorem pendwf_unconfirm (rank : TxId → Nat) (c : Ctx) (s s' : Store) (bals bals' : Bals) (blk : BlockMeta) (id : TxId)
+    (rem : List (TxId × Nat)) (loc : BlkId × Nat) (tx : Tx) (hw : PendWF rank s)
+    (h : rollbackTx c s bals blk id = .ok (s', bals', rem))
+    (hloc : AMap.get s.txrecs (id, blk) = some loc) (htx : c.node.txByFileLoc loc = some tx) (hcb : tx.cb = false)
+    (hid : tx.id = id) (hnew : AMap.get s.pending id = none) (hrank : ∀ i ∈ tx.ins, rank i.tx < rank id) :
+    PendWF rank s' :=
+  rollbackTx_wf rank c s s' bals bals' blk id rem loc tx hw h hloc htx hcb hid hnew hrank
+
+/-- the hypotheses of `unconfirm_readable` / `pendwf_unconfirm` are satisfiable (TEST by evaluation): a store whose
+    only record is Q in block B7, the node returns Q for that location -/
+def exNode : Node := { chain := [], known := [("B7", ⟨"B7", "B6", 7, [exQ]⟩)] }
+def exCtx : Ctx := { p := {}, own := [], wallets := [], node := exNode }
+def exMined : Store := { txrecs := [(("Q", ⟨7, "B7"⟩), ("B7", 0))] }
+example : (match rollbackTx exCtx exMined [] ⟨7, "B7"⟩ "Q" with
+    | .ok (s', _, rem) => (s'.pending.map (·.1), s'.pendIns, rem)
+    | .error _ => ([], [], [])) = (["Q"], [(("P", 0), ["Q"])], []) ∧
+    AMap.get exMined.txrecs ("Q", ⟨7, "B7"⟩) = some ("B7", 0) ∧ exCtx.node.txByFileLoc ("B7", 0) = some exQ ∧
+    exQ.cb = false ∧ exQ.id = "Q" ∧ AMap.get exMined.pending "Q" = none := by decide
+
+/-- … and that store is well-formed, Q respects the rank -/
+example : PendWF exRank exMined ∧ (∀ i ∈ exQ.ins, exRank i.tx < exRank "Q") := by
+  refine ⟨⟨fun _ _ h => ?_, fun _ _ h => ?_, fun _ _ h => ?_, fun _ h => ?_, fun _ _ h => ?_⟩, by decide⟩
+  · cases h
+  · obtain ⟨_, h, _⟩ := h; cases h
+  · cases h
+  · cases h
+  · cases h
+
+-- ------------------------------------------------------------------ what is NOT proved here
+
+/-- FULL statement of the history-level property (NOT proved; tied by the three-way correspondence on generated
+    histories): for every history of driver operations inside the compared domain `Domain` (valid chains, deliveries
+    a node would relay — see notes/C09.md), the ids of the model's pending set are the ids of the specification's
+    pending set `MW.Spec.Pending`.  What is proved above are the per-operation facts on the pending side and the
+    invariant `PendWF`; the missing part is the simulation argument over histories, which also needs the mined-side
+    invariant of C01 (which block transactions filterTx finds relevant is decided from the credit table). -/
+def C09_full_history_refinement (Domain : List (List String) → Prop)
+    (run : List (List String) → Store × List Tx) : Prop :=
+  ∀ ops, Domain ops → ∀ id, (AMap.get (run ops).1.pending id).isSome = (run ops).2.any (fun t => t.id = id)
 
 end MW.Props.C09
